@@ -267,6 +267,20 @@ def at(seq, i):
     return seq[i] if 0 <= i < len(seq) else 0
 
 
+def mhas(m, k):
+    """is k a key of the dict m"""
+    return k in m
+
+
+def mget(m, k, name):
+    """field `name` of the record stored under k (asyncio.Event fields read as their flag);
+    only meaningful when mhas(m, k)"""
+    if k not in m:
+        return 0
+    v = getattr(m[k], name)
+    return v.is_set() if hasattr(v, 'is_set') else v
+
+
 def fresh_int():
     """ghost havoc (only meaningful symbolically)."""
     return 0
